@@ -3274,6 +3274,7 @@ def unpickle_setwrapper(obj, attrname, items):
     wrapper = wrapper_cls(obj, attr)
     setdata = obj._vals_.get(attr)
     if setdata is None: setdata = obj._vals_[attr] = SetData()
+    setdata.update(items)
     setdata.is_fully_loaded = True
     setdata.absent = None
     setdata.count = len(setdata)
